@@ -88,7 +88,7 @@ def identity_prior(x):
 
 def make_sampler(kind='gauss', n_dim=2, n_live=100, n_networks=0, n_batch=50, blob=None, vectorized=False,
                  periodic=None, seed=0, filepath=None, resume=True, n_update=None, pool=None, n_like_new_bound=None,
-                 prior=None, pass_dict=None, blobs_dtype=None):
+                 prior=None, pass_dict=None, blobs_dtype=None, nn_kwargs=None):
     from nautilus import Sampler
     lk = Likelihood(kind, blob=blob, vectorized=vectorized)
     kw = dict(n_dim=n_dim, n_live=n_live, n_networks=n_networks, n_batch=n_batch, vectorized=vectorized,
@@ -104,6 +104,7 @@ def make_sampler(kind='gauss', n_dim=2, n_live=100, n_networks=0, n_batch=50, bl
         kw.pop('n_dim')
     if n_networks > 0:
         kw['neural_network_kwargs'] = dict(hidden_layer_sizes=(16, 8), max_iter=200)
+        kw['neural_network_kwargs'].update(nn_kwargs or {})
     s = Sampler(prior, lk, **kw)
     return s, lk
 
